@@ -4,6 +4,7 @@ TCRdist search) keeps exactly the pairs inside BOTH radii: Levenshtein ≤ k and
 its radius. `cd` is the custom distance, `inR d` the test `d ≤ max_custom_distance`.
 Only property theorems and non-vacuity examples live here; helper lemmas are in Proofs/.
 -/
+import Prs.Proofs.Tables
 import Prs.Generated.VdistAlpha
 import Prs.Generated.VdistBeta
 import Prs.Proofs.Output
@@ -158,4 +159,24 @@ theorem C14_vdist_beta_ok :
     tableOk Generated.vdistBetaIndex.length Generated.vdistBeta = true ∧
       Generated.vdistBetaAllNat = true ∧ Generated.vdistBetaColumns = Generated.vdistBetaIndex :=
   ⟨Generated.vdistBeta_ok.1, Generated.vdistBeta_ok.2, Generated.vdistBeta_labels⟩
+end Prs
+
+namespace Prs
+/-- spelled out for the generated tables: square, every row complete, entry [i][j] = entry [j][i] and
+a zero diagonal -/
+theorem C14_vdist_alpha_symmetric :
+    let n := Generated.vdistAlphaIndex.length
+    let M := Generated.vdistAlpha
+    M.length = n ∧ (∀ r ∈ M, r.length = n) ∧
+      (∀ i j, i < n → j < n → (M[i]?.bind (·[j]?)) = (M[j]?.bind (·[i]?))) ∧
+      (∀ i, i < n → (M[i]?.bind (·[i]?)) = some 0) :=
+  tableOk_spec _ _ Generated.vdistAlpha_ok.1
+
+theorem C14_vdist_beta_symmetric :
+    let n := Generated.vdistBetaIndex.length
+    let M := Generated.vdistBeta
+    M.length = n ∧ (∀ r ∈ M, r.length = n) ∧
+      (∀ i j, i < n → j < n → (M[i]?.bind (·[j]?)) = (M[j]?.bind (·[i]?))) ∧
+      (∀ i, i < n → (M[i]?.bind (·[i]?)) = some 0) :=
+  tableOk_spec _ _ Generated.vdistBeta_ok.1
 end Prs
